@@ -121,8 +121,8 @@ def hist_with_gen(h):
 
 
 GEN_NOTE = ("the leaf functions (NewlineIndex, NextChunk, trimFirstSpace, getFieldName, splitFunc, FieldParser.*, isSingleLine, "
-            "topicsIntersect) are translated from /repo's source to Lean on every run (translate/) and proved equal to the "
-            "model (GoSSE/Proofs/GenEquiv.lean); the translator's reading of Go (GoSSE/GoRT.lean) is validated by the GEN ops")
+            "topicsIntersect, queue.enqueue/dequeue/resize) are translated from /repo's source to Lean on every run (translate/) and proved equal to the "
+            "model (GoSSE/Proofs/GenEquiv*.lean); the translator's reading of Go (GoSSE/GoRT.lean) is validated by the GEN ops")
 
 PROPS["C01"] = {
     "gens": [{"id": "C01", "quick": 40000, "thorough": 1600000, "thorough_seeds": 16},
